@@ -11,12 +11,18 @@ for a in ("B1", "B2", "B3"):
             titles[(a, m.group(1))] = m.group(2).strip().rstrip(":")
     except OSError:
         pass
-rows = []
-for f in sorted(glob.glob(f"{src}/B*/try_*.log")):
-    a, i = f.split("/")[-2], re.search(r"try_(\d)", f).group(1)
+rows, by_patch = [], {}
+for f in sorted(glob.glob(f"{src}/B*/try_*.log")) + sorted(glob.glob(f"{src}/B*/try2_*.log")):  # try2 = second pass (more checks)
+    a, i = f.split("/")[-2], re.search(r"try2?_(\d)", f).group(1)
     txt = open(f).read()
     checks = {m.group(1): {"exit": int(m.group(2)), "secs": float(m.group(3))} for m in re.finditer(r"(?m)^(C\d+) exit=(\d+) ([\d.]+)s", txt)}
-    rows.append({"patch": f"{a}/benign_{i}.diff", "what": titles.get((a, i), ""), "pinned_suite_green": "176 passed; 0 failed" in txt, "checks": checks})
+    key = f"{a}/benign_{i}.diff"
+    if key in by_patch:
+        by_patch[key]["checks"].update(checks)
+        by_patch[key]["pinned_suite_green"] &= "176 passed; 0 failed" in txt
+    else:
+        by_patch[key] = {"patch": key, "what": titles.get((a, i), ""), "pinned_suite_green": "176 passed; 0 failed" in txt, "checks": checks}
+        rows.append(by_patch[key])
 json.dump(rows, open(f"{here}/benign/results.json", "w"), indent=1)
 print("| patch | what it perturbs | pinned suite | checks run (quick tier) | alarms |")
 print("|---|---|---|---|---|")
